@@ -787,3 +787,91 @@ def run_b18(chk, repo):
                           witness='an ADVAN3 TRANS1 model (K12, K21 thetas) -> set_michaelis_menten_elimination -> '
                                   'set_first_order_elimination: $SUBROUTINE ADVAN3 TRANS4 with Q = K21, V2 = 1, V1 = VC: '
                                   'NONMEM computes K12 = K21/VC (findings/C02_trans4_needs_ratio_rates_demo.py)')
+
+
+def run_b19(chk, repo):
+    """a trailing (0, True) branch of a Piecewise is dropped as "our own default" only for a symbol that was not defined before"""
+    from sa import reach
+    B19 = chk.rule('B19', 'Piecewise -> IF: the trailing `ELSE X = 0` branch is treated as the reader\'s default only under a '
+                          'test on defined_symbols', floor=1)
+    cm = repo.module(f'{NM}.records.code_record')
+    f = cm.functions.get('_translate_sympy_piecewise')
+    if f is None:
+        raise AnalysisError('_translate_sympy_piecewise not found')
+    if len(f.params) < 2:
+        raise AnalysisError('_translate_sympy_piecewise: defined-symbols parameter not found')
+    dparam = f.params[1]
+    cfg = CFG(f.node)
+    drops = [I for I in walk_no_nested(f.node) if isinstance(I, ast.If) and any(
+        isinstance(a, ast.Assign) and isinstance(a.value, ast.Subscript) and isinstance(a.value.slice, ast.Slice)
+        and a.value.slice.upper is not None and unparse(a.value.slice.upper) == '-1' for a in I.body)]
+    if not drops:
+        raise AnalysisError('B19: the statement that drops the last Piecewise branch was not found')
+    for I in drops:
+        nid = reach.node_of(cfg, I)
+        test = reach.expand_expr(cfg, nid, I.test) if nid is not None else I.test
+
+        def zero_cmps(e, inside_and=None):
+            out = []
+            if isinstance(e, ast.BoolOp):
+                for v in e.values:
+                    out += zero_cmps(v, e if isinstance(e.op, ast.And) else inside_and)
+            elif isinstance(e, ast.Compare) and len(e.ops) == 1 and isinstance(e.ops[0], ast.Eq) \
+                    and any(isinstance(x, ast.Constant) and x.value == 0 and not isinstance(x.value, bool)
+                            for x in [e.left, e.comparators[0]]):
+                out.append((e, inside_and))
+            return out
+        zs = zero_cmps(test)
+        if not zs:
+            raise AnalysisError(f'B19: no `== 0` test in the condition `{unparse(test)[:80]}`')
+        for cmp_, conj in zs:
+            ok = conj is not None and any(
+                isinstance(c, ast.Compare) and isinstance(c.ops[0], (ast.In, ast.NotIn)) and unparse(c.comparators[0]) == dparam
+                for v in conj.values for c in ast.walk(v))
+            chk.instance(B19, f'`{unparse(cmp_)}` decides "own default" together with a test on {dparam}: {ok}')
+            if not ok:
+                chk.violation(B19, cm.rel, f.name, unparse(test)[:120],
+                              f'a trailing (0, True) branch is dropped without asking whether the symbol already has a value: an '
+                              f'explicit ELSE X = 0 of an already defined X disappears from the generated code', line=I.lineno,
+                              witness='X = 1 followed by IF (c) THEN X = a ELSE X = 0 END IF, regenerated after any change of '
+                                      'that record: on the false side NONMEM keeps X = 1, the model says 0')
+
+
+def run_b20(chk, repo):
+    """a bolus that becomes an infusion with a duration parameter: the RATE column is (re)written with -2 on every path that
+    publishes the copied dataset"""
+    B20 = chk.rule('B20', 'update_infusion: the dataset published for a new duration infusion carries the rewritten RATE '
+                          'column on every path (not only when the column was absent)', floor=1)
+    um = repo.module(f'{NM}.update')
+    f = um.functions.get('update_infusion')
+    if f is None:
+        raise AnalysisError('update_infusion not found')
+    cfg = CFG(f.node)
+    copies = [n for n in cfg.nodes.values() if n.kind == 'stmt' and isinstance(n.ast, ast.Assign)
+              and isinstance(n.ast.targets[0], ast.Name) and isinstance(n.ast.value, ast.Call)
+              and unparse(n.ast.value.func).endswith('dataset.copy')]
+    n = 0
+    for c in copies:
+        var = c.ast.targets[0].id
+        stores = {m.id for m in cfg.nodes.values() if m.kind == 'stmt' and isinstance(m.ast, ast.Assign)
+                  and isinstance(m.ast.targets[0], ast.Subscript) and unparse(m.ast.targets[0].value) == var
+                  and isinstance(m.ast.targets[0].slice, ast.Constant) and m.ast.targets[0].slice.value == 'RATE'}
+        pubs = [m for m in cfg.nodes.values() if m.kind == 'stmt' and m.ast is not None and any(
+            isinstance(x, ast.Call) and isinstance(x.func, ast.Attribute) and x.func.attr == 'replace'
+            and any(k.arg == 'dataset' and unparse(k.value) == var for k in x.keywords) for x in ast.walk(m.ast))
+            and m.id in cfg.reachable(c.id)]
+        if not stores or not pubs:
+            continue
+        for p in pubs:
+            n += 1
+            ok = cfg.must_pass(c.id, p.id, stores)
+            chk.instance(B20, f'update_infusion: `{p.text()[:50]}` after `{c.text()[:40]}` passes the RATE rewrite: {ok}')
+            if not ok:
+                path = cfg.path(c.id, p.id, avoid=stores)
+                chk.violation(B20, um.rel, f.qualname, 'RATE rewritten only on some paths',
+                              'the copied dataset is published without the RATE column having been set to -2 on the dose '
+                              'records: an existing RATE column (all zero = bolus) stays, NONMEM gives bolus doses and ignores D1',
+                              line=p.line, path=cfg.describe(path or []),
+                              witness='a dataset that already has an all-zero RATE column, then set_zero_order_absorption')
+    if n == 0:
+        raise AnalysisError('B20: dataset copy / RATE rewrite / publication not found in update_infusion')
